@@ -34,7 +34,7 @@ statement-position shortcuts, `print`, blocks, `if`/`else` through the fused or 
 `exec` gives outcome `o` then the VM reaches, stack unchanged and with `exec`'s world, the end of the statement's code
 (normal), the break target, the continue target, or halts with `next` / `exit`. No bound on nesting or iterations. -/
 theorem compile_stmt_sim (L : Laws S) (M : StmtLaws S) (n : Nat) (s : Stmt) (bk ct : Nat) (stk : List S.V) (w : S.W)
-    (o : Out S.W) (hwf : s.WF) (h : exec S n s w = some o) :
+    (o : Out S.V S.W) (hwf : s.WF) (h : exec S n s w = some o) :
     OutAt S (cStmt bk ct s) 0 (stmtSize s) (stmtSize s + bk) (stmtSize s + ct) stk w o :=
   (stmt_sim L M n).1 s bk ct stk w o hwf h
 
